@@ -87,9 +87,31 @@ CHECKS = {
          "Real-valued quantifier: lattices; event oracles use the library's own Moon and Sun positions.",
          "DESIGN.md 3/C15"),
  "C20": (MC, "explicit-state exploration of the call-history graph: every catalogued public callable is a transition on the state (digest of all module-level objects and function defaults, digest of the shared argument pool); all ordered call pairs against single calls made in fresh processes; all mutator sequences of length <= 2 on copies; all argument tuples within D deviations of the base tuple over in-domain and ill-typed alphabets",
-         "The catalogue is checked against introspection (248 callables + 1 wall-clock function). Purity: the reachable state graph must be one state with 248 self-loops. Histories: all 61 504 ordered pairs (A, B): result of B after A equals B alone in a fresh process, argument pool unchanged. Copy constructors of 5 classes under every mutator sequence of length <= 2. Totality: 3 520 (thorough ~15 000) argument tuples within 1 (2) deviations plus wrong arity, and 93 explicit boundary / out-of-range probes; calls run under a 20 s watchdog.",
+         "The catalogue is checked against introspection (255 catalogue entries incl. argument-shape variants + 1 wall-clock function). Purity: the reachable state graph must be one state with 255 self-loops. Histories: all 65 025 ordered pairs (A, B): result of B after A equals B alone in a fresh process, argument pool unchanged. Copy constructors of 5 classes under every mutator sequence of length <= 2. Totality: 3 520 (thorough ~15 000) argument tuples within 1 (2) deviations plus wrong arity, and 93 explicit boundary / out-of-range probes; calls run under a 20 s watchdog.",
          "'Documented domain' is the hand-written alphabet in vmc/props/c20_specs.py; hidden state outside module globals / argument objects is only visible through the differential pair clause.",
          "DESIGN.md 3/C20"),
+}
+
+# sentences appended to the level text: history / sequence clauses added while testing against seeded changes
+EXTRA = {
+ "C02": " Object histories: every observer/mutator sequence up to depth 3 (4) on ONE Epoch, all 16 views compared with a fresh object after each step.",
+ "C03": " Object histories: every observer/mutator sequence up to depth 3 (4) on ONE Angle, all views compared with a fresh object after each step.",
+ "C04": " Tolerance histories: the same functions on objects whose tolerance was changed by set_tolerance earlier in the history.",
+ "C05": " Shared-object histories: one obliquity / latitude object re-used over the whole alphabet and updated in place between calls.",
+ "C06": " Near-epoch histories (a call preceded by a call with epochs 1e-3..1e-2 day away); orbital elements incl. i = 0, 90, 180 judged by rotating the orbit normal and perihelion direction.",
+ "C07": " Calls one second and one minute apart (continuity and the aberration identity on consecutive calls).",
+ "C08": " Every date form with and without utc / leap_seconds keywords.",
+ "C09": " Close approaches down to 0.002 AU; histories of ONE Minor and ONE Epoch re-used through set() (all sequences to depth 3 / 4 over 9 operations, two-body oracle after each step); one Epoch re-set between (date, body) planet queries.",
+ "C10": " API histories: all sequences (depth 3 / 4) over 10 operations of the leap-second API, the visible history (58 values) compared with the IERS list after each step; overrides with and without utc=True.",
+ "C11": " Call sequences: each (e, M) preceded by a call 6e-8..1e-4 degree away.",
+ "C12": " Histories incl. the caller overwriting the lists it lent to the object (depth 3).",
+ "C13": " Isolated spot queries over the whole range (240 / 1 200 per variant); one Epoch moved by set() through all ordered pairs (triples) of 7 dates per variant.",
+ "C14": " Rise/set decision on a 0.25 (0.05) degree declination grid through both 'never crosses' thresholds x 10 latitudes x 6 standard altitudes.",
+ "C15": " Every year end -2000..3998 x 10 finder/target pairs x 10 query offsets from 1.5 d down to 1e-6 d around 1 January 0h; one Epoch moved by set() between queries.",
+ "C16": " First instant and 1e-8 day before the end of every civil day through Epoch(jde).dow(); Epoch object histories (shared with C02).",
+ "C17": " Input forms incl. re-used objects, a copy whose source is re-loaded, and lists overwritten by the caller, for linear, quadratic and general fits.",
+ "C18": " Histories of ONE Earth object set() through all sequences of 2-3 (4) of the 5 ellipsoids, 26 views compared with a fresh object.",
+ "C20": " Further clauses: reused_arguments (caller changes an argument object in place between two calls), near_arguments (previous call with almost the same arguments), dense_domains (43 single-parameter sweeps on arithmetic grids with fractional steps, 95 313 calls), object_reset (construct / set histories of 4 classes against fresh objects), probes whose documented ValueError must be raised.",
 }
 
 NOT_YET = {}
@@ -110,7 +132,7 @@ def main():
             "evidence_file": "/verif/evidence/%s.json" % pid,
             "replay_cmd_template": "./check %s --replay {path}" % pid,
             "engine": "vmc",
-            "level_claimed": {"category": level, "text": text, "design_ref": ref},
+            "level_claimed": {"category": level, "text": text + EXTRA.get(pid, ""), "design_ref": ref},
             "level_note": note,
             "technique": tech,
         })
